@@ -15,6 +15,7 @@ anchor as an analysis error, never as a violation).
 import ast
 import copy
 import difflib
+import re
 
 from .normalize import (load_baseline, own_nodes, params_of, local_defs_fp, _Rename, _is_log_stmt, _replace_node,
                         _Subst, _targets)
@@ -2163,6 +2164,151 @@ def _note_stable_attrs(trees):
 
 
 
+def inline_new_properties(trees, stats):
+  """A read-only @property that the reference tree does not have and whose body is one `return <expr over self>` (a named predicate):
+  every `<receiver>.<name>` load is the expression again with the receiver in place of self.  Only when the name is new to the whole package
+  (no reference source mentions `.<name>`), is never stored, has no setter, and the receiver is a plain name/attribute chain."""
+  b = load_baseline()
+  inv = b.get('inventory', {})
+  srcs = b.get('sources') or {}
+  alltext = '\n'.join(srcs.values()) if isinstance(srcs, dict) else ''
+  if not alltext:
+    return
+  found = {}
+  dup = set()
+  for rel, tree in trees.items():
+    known = set(inv.get(rel, []))
+    for c in ast.walk(tree):
+      if not isinstance(c, ast.ClassDef):
+        continue
+      for m in c.body:
+        if not (isinstance(m, ast.FunctionDef) and len(m.decorator_list) == 1 and ast.unparse(m.decorator_list[0]) == 'property'):
+          continue
+        if any(q.endswith('.' + m.name) or q == m.name for q in known) or re.search(r'\b%s\b' % re.escape(m.name), alltext):
+          continue
+        body = [x for x in m.body if not (isinstance(x, ast.Expr) and isinstance(x.value, ast.Constant) and isinstance(x.value.value, str))]
+        if len(body) != 1 or not isinstance(body[0], ast.Return) or body[0].value is None:
+          continue
+        a = m.args
+        if len(a.args) != 1 or a.vararg or a.kwarg or a.kwonlyargs or a.posonlyargs:
+          continue
+        e = body[0].value
+        if any(isinstance(n, (ast.Lambda, ast.ListComp, ast.SetComp, ast.DictComp, ast.GeneratorExp, ast.NamedExpr, ast.Yield, ast.YieldFrom, ast.Await)) for n in ast.walk(e)):
+          continue
+        if m.name in found:
+          dup.add(m.name)
+        found[m.name] = (rel, c, m, a.args[0].arg, e)
+  for d in dup:
+    found.pop(d, None)
+  if not found:
+    return
+  # never stored / deleted / used with a setter
+  for rel, tree in trees.items():
+    for n in ast.walk(tree):
+      if isinstance(n, ast.Attribute) and n.attr in found:
+        if not isinstance(n.ctx, ast.Load):
+          found.pop(n.attr, None)
+        elif not _pure_chain(n.value):
+          found.pop(n.attr, None)
+      elif isinstance(n, ast.Attribute) and n.attr in ('setter', 'deleter') and isinstance(n.value, ast.Name) and n.value.id in found:
+        found.pop(n.value.id, None)
+      elif isinstance(n, ast.Constant) and isinstance(n.value, str) and n.value in found:
+        found.pop(n.value, None)      # getattr(obj, 'name')
+  if not found:
+    return
+  cnt = [0]
+
+  class Sub(ast.NodeTransformer):
+    def visit_Attribute(self, node):
+      self.generic_visit(node)
+      if isinstance(node.ctx, ast.Load) and node.attr in found:
+        rel, c, m, selfname, e = found[node.attr]
+        recv = node.value
+
+        class R(ast.NodeTransformer):
+          def visit_Name(self, nn):
+            if nn.id == selfname:
+              return copy.deepcopy(recv)
+            return nn
+        cnt[0] += 1
+        return ast.copy_location(R().visit(copy.deepcopy(e)), node)
+      return node
+
+  for _ in range(3):        # a predicate written with another new predicate
+    before = cnt[0]
+    for rel, tree in trees.items():
+      Sub().visit(tree)
+    for nm, (rel, c, m, selfname, e) in list(found.items()):
+      found[nm] = (rel, c, m, selfname, m.body[-1].value)
+    if cnt[0] == before:
+      break
+  for nm, (rel, c, m, selfname, e) in found.items():
+    c.body = [x for x in c.body if x is not m] or [ast.Pass()]
+  for rel, tree in trees.items():
+    ast.fix_missing_locations(tree)
+  stats['properties_inlined'] = stats.get('properties_inlined', 0) + cnt[0]
+
+
+def _pure_chain(n):
+  while isinstance(n, ast.Attribute):
+    n = n.value
+  return isinstance(n, ast.Name)
+
+
+def push_down_new_base_methods(trees, stats):
+  """Pull-up-method undone: a plain method that the reference tree does not have in class B, while B has textual subclasses in the package,
+  is copied into every subclass that does not define it (where it is either the subclass's own reference method again, possibly under a
+  mangled name that the attribute renaming pairs up, or a new helper that gets inlined), and dropped from B when B itself does not use it."""
+  b = load_baseline()
+  inv = b.get('inventory', {})
+  classes = []     # (rel, ClassDef)
+  for rel, tree in trees.items():
+    for c in tree.body:
+      if isinstance(c, ast.ClassDef):
+        classes.append((rel, c))
+  n = 0
+  for rel, B in classes:
+    known = set(inv.get(rel, []))
+    if not any(q.startswith(B.name + '.') for q in known):
+      continue       # a new class: handled by the class absorbers
+    subs = [(r2, d) for r2, d in classes if d is not B and any(ast.unparse(x).split('.')[-1] == B.name for x in d.bases)]
+    if not subs:
+      continue
+    for m in list(B.body):
+      if not isinstance(m, ast.FunctionDef) or m.decorator_list or (m.name.startswith('__') and m.name.endswith('__')):
+        continue
+      if (B.name + '.' + m.name) in known or (B.name + '.' + m.name.lstrip('_')) in known:
+        continue
+      if any((B.name + '.' + pre + m.name.lstrip('_')) in known for pre in ('_', '__')):
+        continue
+      if any(isinstance(x, (ast.Yield, ast.YieldFrom)) for x in own_nodes(m)) and False:
+        continue
+      # super() calls inside would change meaning when moved
+      if any(isinstance(x, ast.Name) and x.id == 'super' for x in ast.walk(m)):
+        continue
+      # some subclass must have had it in the reference tree or use it now
+      stem = m.name.lstrip('_')
+      def _had(r2, d):
+        k2 = set(inv.get(r2, []))
+        return any((d.name + '.' + pre + stem) in k2 for pre in ('', '_', '__'))
+      def _uses(c, skip=None):
+        return any(isinstance(x, ast.Attribute) and x.attr == m.name and isinstance(x.value, ast.Name) and x.value.id == 'self'
+                   for f in c.body if f is not skip for x in ast.walk(f))
+      if not any(_had(r2, d) or _uses(d) for r2, d in subs):
+        continue
+      for r2, d in subs:
+        if any(isinstance(f, ast.FunctionDef) and f.name == m.name for f in d.body):
+          continue
+        if not (_had(r2, d) or _uses(d)):
+          continue
+        d.body.append(copy.deepcopy(m))
+        n += 1
+      if not _uses(B, skip=m):
+        B.body = [x for x in B.body if x is not m] or [ast.Pass()]
+  if n:
+    stats['pushed_down'] = stats.get('pushed_down', 0) + n
+
+
 def restore_package(trees, stats):
   """Before the per-module normalisation (on the raw trees)."""
   try:
@@ -2177,6 +2323,14 @@ def restore_package(trees, stats):
     import_cross_module_helpers(trees, stats)
   except Exception as e:
     stats['cross_module_error'] = repr(e)
+  try:
+    push_down_new_base_methods(trees, stats)
+  except Exception as e:
+    stats['pushdown_error'] = repr(e)
+  try:
+    inline_new_properties(trees, stats)
+  except Exception as e:
+    stats['property_error'] = repr(e)
   try:
     demote_new_namedtuples(trees, stats)
   except Exception as e:
